@@ -735,7 +735,7 @@ def r53_string_index_guard(ctx):
                 ts = set(ctx.types_in(f, n.value))
             except Exception:
                 ts = set()
-            is_str = (ts and ts <= {"str", "None"}) or (
+            is_str = ("str" in ts and ts <= {"str", "None"}) or (
                 nm in strlike and not (ts & {"list", "tuple", "dict"}))
             if not is_str:
                 continue
